@@ -686,11 +686,35 @@ def _oracle(sc, w, mode, name, outcome, responses, shared, killed, sched, grid, 
     if sched.unexpected:
         return {'sig': 'C08:worker-died:%s' % name, 'msg': repr(sched.unexpected)}
     ok_fetches = [e for e in log if e['ok']]
+    if sc.get('stale_locks') and w.fs.probes.get('unlink_of_file_flocked_by_other_task'):
+        # the listed history (known_findings.json): cleanup_lockdir() unlinked a stale lock file that another request had
+        # re-locked, two creators worked on one meta tile. Whatever follows from that - the second fetch itself, or a reader
+        # that meets the moment in which the second creator re-links a single-colour tile - is reported under that signature
+        groups = {}
+        for e in ok_fetches:
+            groups.setdefault((e['bbox'], e['size'], e.get('dim')), []).append(e)
+        dup = [es for es in groups.values() if len(es) > 1]
+        if dup:
+            failed = [r for r in responses if r['exc'] is not None and type(r['exc']).__name__ not in ('SourceError',)]
+            return {'sig': 'C08:duplicate-fetch:stale-lock-cleanup-race',
+                    'msg': 'with lock files older than lock_timeout+10s left in the lock directory, cleanup_lockdir() unlinked a lock '
+                           'file that another request had re-locked: two creators for the (meta) tile %s (fetches %s)%s [%s, %s]' % (
+                               dup[0][0]['bbox'], [(e['task'], e['gen']) for e in dup[0]],
+                               '; request %s of %s then failed with %r' % (failed[0]['req'], failed[0]['client'], failed[0]['exc'])
+                               if failed else '', mode, name)}
     served = {}
     for r in responses:
         if r['exc'] is not None:
             if mode == 'upfail' and type(r['exc']).__name__ == 'SourceError':
                 continue
+            if type(r['exc']).__name__ == 'FileNotFoundError' and sc['backend'].get('link') and '_make_seekable_buf' in r.get('tb', ''):
+                # one specific history with its own signature (known_findings.json)
+                return {'sig': 'C08:reader-meets-relink-of-single-colour-tile',
+                        'msg': 'request %s of %s had loaded a linked single-colour tile (file name kept, file opened when the '
+                               'response is built); meanwhile another request stored that tile again - '
+                               'FileCache._store_single_color_tile() unlinks the tile and links it anew, two steps - and the '
+                               'reader opened the path in between: %r [%s, %s]\n%s' % (
+                                   r['req'], r['client'], r['exc'], mode, name, r.get('tb', ''))}
             return {'sig': 'C08:request-failed:%s:%s:%s' % (type(r['exc']).__name__, mode, name),
                     'msg': 'request %s of %s raised %r\n%s' % (r['req'], r['client'], r['exc'], r.get('tb', ''))}
         for coord, ok, g, msg in r['tiles']:
